@@ -281,6 +281,7 @@ func checkC15(c *Ctx, r *Report) {
 		"R2 live metadata pointers handed out of a locked region: every field access through them anywhere in the module is subject to R1 (whole-struct copies count as reads of every field)",
 		"R5 header maps handed to a response are filled by copying values, never by storing the stored entry's value slices (aliasing would make concurrent hits append into one backing array)",
 		"R4 every other field of a shared component type is a synchronisation object, immutable after the allocating function, or owner-confined to the listed functions; an unclassified mutable field is reported",
+		"R6 package-level variables of a plain (non-sync, non-atomic) type that are assigned by code reachable from a run-time root (requests, janitor, config-change handlers) have a lock common to all their accesses",
 	}
 	r.NotDec = []string{"happens-before edges other than lock regions, allocation-before-publication and goroutine start", "races inside dependencies", "benign races the Go memory model forbids but a lock discipline cannot distinguish are reported, not waived"}
 	li := BuildLocks(c)
